@@ -24,7 +24,7 @@ META: Dict[str, Any] = {
     "level": "fault_enumeration",
     "pools": [{"backend": "c"}, {"backend": "py"}, {"backend": "c", "optimize": 1}],
     "tiers": {
-        "quick": {"runs": 120000, "chunk": 400, "wall": 60, "chunk_wall": 240},
+        "quick": {"runs": 120000, "chunk": 400, "wall": 200, "chunk_wall": 240},
         "thorough": {"runs": 3000000, "chunk": 500, "wall": 900, "chunk_wall": 600},
     },
     "selftest_runs": 6,
